@@ -9,6 +9,8 @@
 
 use vek::*;
 
+mod wide;
+
 struct Fnv(u64);
 impl Fnv {
     fn put(&mut self, s: &str) {
@@ -201,8 +203,19 @@ fn features() -> Vec<String> {
 }
 
 fn main() {
+    // argv: [seed [iterations]] for the wide differential workload (same in every configuration of one sweep)
+    let args: Vec<String> = std::env::args().collect();
+    let seed: u64 = args.get(1).and_then(|s| s.parse().ok()).unwrap_or(1);
+    let iters: usize = args.get(2).and_then(|s| s.parse().ok()).unwrap_or(40);
     let (d, n) = base();
     println!("base_digest={:016x} base_values={}", d, n);
+    std::panic::set_hook(Box::new(|_| {}));
+    let w = wide::run(seed, iters);
+    let _ = std::panic::take_hook();
+    println!("wide_seed={} wide_iterations={} wide_calls_that_panicked={}", seed, iters, w.1);
+    for (name, (digest, values)) in w.0.iter() {
+        println!("section={} digest={:016x} values={}", name, digest, values);
+    }
     for l in features() {
         println!("feature_line={}", l);
     }
